@@ -203,6 +203,8 @@ struct Hist {
     old: Vec<u8>,
     pending: Vec<Pending>,
     fault_armed: u32,
+    /// a cache fault was applied earlier in this case (well-formed but stale cache files may exist: C04's known class)
+    any_cache_fault: bool,
     last_fault: &'static str,
     ensured: bool,
     step: usize,
